@@ -6,6 +6,7 @@ import (
 
 	"verif/internal/check"
 	"verif/internal/e1"
+	"verif/internal/e2"
 	"verif/internal/sut"
 )
 
@@ -148,6 +149,7 @@ func init() {
 			"at least 3 members were in one session, accepted changes of at least 3 state classes occurred and at least one view comparison ran",
 			func(s *e1.Stats) bool { return s.MaxMembers >= 3 && len(s.ClassesChanged) >= 3 && s.ViewCompares > 0 })
 		partConcurrent(c, a, "C01")
+		partGated(c, a, []func(*sut.Proc) *e2.Result{e2.G6SameKeyActionWriters}, 1)
 		return a.finish(c)
 	}
 	registry["C02"] = func(c *check.Ctx) int {
